@@ -1868,6 +1868,22 @@ var Catalogue = []TypeEntry{
 		}
 		return v
 	})),
+	// pointer ELEMENTS of types that have user-defined unfolders
+	mk("[]*Label", true, func(c *simkit.Choices) []*Label {
+		return genSlice(c, func(c *simkit.Choices) *Label { return &Label{S: genStr(c)} })
+	}),
+	mk("map[string]*Label", true, func(c *simkit.Choices) map[string]*Label {
+		return genMap(c, func(c *simkit.Choices) *Label { return &Label{S: genStr(c)} })
+	}),
+	mk("[]*Score", false, func(c *simkit.Choices) []*Score {
+		return genSlice(c, func(c *simkit.Choices) *Score { s := Score(c.N(1000)); return &s })
+	}),
+	mk("[]*PInt16", false, func(c *simkit.Choices) []*PInt16 {
+		return genSlice(c, func(c *simkit.Choices) *PInt16 { return &PInt16{V: int16(c.N(65536))} })
+	}),
+	mk("map[string]*IntList", false, func(c *simkit.Choices) map[string]*IntList {
+		return genMap(c, func(c *simkit.Choices) *IntList { l := genIntList(c, 0); return &l })
+	}),
 	mk("Label", true, func(c *simkit.Choices) Label { return Label{S: genStr(c)} }),
 	mk("Labeled", true, func(c *simkit.Choices) Labeled {
 		l := Labeled{Name: genStr(c), L: Label{S: genStr(c)}, LL: genSlice(c, func(c *simkit.Choices) Label { return Label{S: genStr(c)} }),
@@ -1918,7 +1934,7 @@ var families = map[string][]string{
 	"kv":     {"OrderedKV", "WithKV", "map[string]string", "Strs"},
 	"arrays": {"Triple", "Pair", "Quad", "[]interface{}-of-named-arrays", "[3]int", "ArrHolder", "[]interface{}"},
 	"bad":    {"BadField", "HasBad", "[]BadField", "Simple", "Inner"},
-	"label":  {"Label", "Labeled", "Strs", "Prims", "PInt16", "[]PUint32", "IntList", "Lists"},
+	"label":  {"Label", "Labeled", "Strs", "Prims", "PInt16", "[]PUint32", "IntList", "Lists", "[]*Label", "map[string]*Label", "[]*Score", "[]*PInt16", "map[string]*IntList"},
 	"omit":   {"Opts", "[]Opts", "OmitIfc", "OmitAll", "LongNames", "Tagged"},
 	"empty":  {"[]Empty", "map[string]Empty", "Empties", "[]interface{}", "map[string]interface{}"},
 	"shape":  {"map[string]Shape", "[]Shape", "Shapes", "map[string]interface{}", "[]interface{}"},
@@ -1956,7 +1972,7 @@ func PickRelated(c *simkit.Choices, n int, forUnfold bool) []*TypeEntry {
 // it is (measured: 6000 generated values per type), which gives an exact
 // ground truth for complete matching documents.
 var inexactRoundTrip = map[string]bool{"interface{}": true, "[]interface{}": true, "map[string]interface{}": true, "Tagged": true, "Strs": true,
-	"[]map[string]interface{}": true, "OmitAll": true, "local-A.record": true, "Label": true, "Labeled": true, "Prims": true, "PInt16": true, "[]PUint32": true, "IntList": true, "Lists": true}
+	"[]map[string]interface{}": true, "OmitAll": true, "local-A.record": true, "Label": true, "Labeled": true, "Prims": true, "PInt16": true, "[]PUint32": true, "IntList": true, "Lists": true, "[]*Label": true, "map[string]*Label": true, "[]*PInt16": true, "map[string]*IntList": true}
 
 // ExactRoundTrip reports whether unfolding the fold of a value of this type
 // into a zero target must reproduce the value (nil and empty identified).
